@@ -1,5 +1,579 @@
-"""Frame, dominance, call-graph and crash-condition obligations decided on the AST (no SMT needed for most)."""
+"""Frame, dominance, call-graph and crash-condition obligations decided on the AST of the current source.
+
+These are the contracts `fs_modifies` (which file-system locations a function may change), `dominates` (the history
+is loaded - and thereby verified - before anything is written) and the crash conditions of the two writers.  Each
+obligation is generated from /repo's working tree on every run and is either discharged (syntactic fact established,
+or a small z3 query over path strings), refuted (a write primitive / call / order that the declared frame forbids;
+reported with the offending source location) or unknown (the code left the shapes this checker understands).
+"""
+import ast
+import hashlib
+import time
+
+import z3
+
+from .source import Repo
+
+# ---------------------------------------------------------------------------------------------- primitives
+WRITE_CALLS = {
+    "os.mkdir", "os.makedirs", "os.remove", "os.unlink", "os.rename", "os.replace", "os.rmdir", "os.removedirs", "os.utime",
+    "os.chmod", "os.chown", "os.truncate", "os.symlink", "os.link", "os.mkfifo", "os.mknod", "os.lchown", "os.renames",
+    "os.open", "os.write", "os.ftruncate", "os.setxattr",
+}
+WRITE_PREFIXES = ("shutil.", "tempfile.", "subprocess.", "os.system", "os.popen", "os.spawn", "os.exec")
+WRITE_METHODS = {"write_text", "write_bytes", "touch", "mkdir", "unlink", "rename", "replace", "rmdir", "symlink_to", "hardlink_to", "chmod", "lchmod"}
+DYNAMIC = {"eval", "exec", "compile", "__import__", "getattr", "setattr", "globals", "locals"}
+
+# declared frames: function -> list of (primitive, argument source)  [the complete set of write primitives of the package]
+ALLOWED_PRIMITIVES = {
+    "ascmhl.hashlist_xml_parser.write_hash_list": [
+        ("os.mkdir", "directory_path"),
+        ("open:wb", "temp_file_path"),
+        ("os.replace", "temp_file_path, file_path"),
+    ],
+    "ascmhl.chain_xml_parser.write_chain": [
+        ("os.mkdir", "directory_path"),
+        ("open:wb", "temp_file_path"),
+        ("os.replace", "temp_file_path, chain.file_path"),
+    ],
+    "ascmhl.history.MHLHistory.create_collection_at_path": [("os.mkdir", "parent_path"), ("os.mkdir", "collection_folder_path")],
+    # not reachable from the shipped CLIs (checked below); declared with their own frames and excluded from the claim
+    "ascmhl.chain_txt_parser.write_chain": [("open:a", "chain.file_path")],
+    "ascmhl._debug_commands.create_dummy_file_structure": None,
+}
+# definitions that place the written paths inside the frame (variable -> accepted defining expressions)
+PATH_DEFS = {
+    "ascmhl.hashlist_xml_parser.write_hash_list": {
+        "directory_path": ["os.path.dirname(file_path)"],
+        "temp_file_path": ["file_path + '.tmp'"],
+    },
+    "ascmhl.chain_xml_parser.write_chain": {
+        "directory_path": ["os.path.dirname(chain.file_path)"],
+        "temp_file_path": ["chain.file_path + '.tmp'"],
+    },
+    "ascmhl.history.MHLHistory.write_new_generation": {"file_path": ["os.path.join(self.asc_mhl_path, file_name)"]},
+    "ascmhl.history.MHLHistory.load_from_path": {
+        "asc_mhl_folder_path": ["os.path.join(root_path, ascmhl_folder_name)"],
+    },
+    "ascmhl.history.MHLHistory.create_collection_at_path": {
+        "collection_folder_path": ["os.path.join(root_path, collection_folder_name)"],
+        "parent_path": ["os.path.dirname(collection_folder_path)"],
+    },
+}
+EXCLUDED_MODULES = {"ascmhl._debug_commands", "ascmhl.chain_txt_parser", "ascmhl.cli.ascmhl_debug", "ascmhl.cli.ascmhl_dev"}
+WRITERS = {"ascmhl.hashlist_xml_parser.write_hash_list", "ascmhl.chain_xml_parser.write_chain", "ascmhl.history.MHLHistory.create_collection_at_path"}
+# command-level frames: which writers may be reachable
+COMMAND_FRAMES = {
+    "ascmhl.commands.verify": set(),
+    "ascmhl.commands.verify_entire_folder": set(),
+    "ascmhl.commands.verify_directory_hash_subcommand": set(),
+    "ascmhl.commands.diff": set(),
+    "ascmhl.commands.diff_entire_folder_against_full_history_subcommand": set(),
+    "ascmhl.commands.info": set(),
+    "ascmhl.commands.info_for_entire_history": set(),
+    "ascmhl.commands.info_for_single_file": set(),
+    "ascmhl.commands.hash": set(),
+    "ascmhl.commands.xsd_schema_check": set(),
+    "ascmhl.commands.create": {"ascmhl.hashlist_xml_parser.write_hash_list", "ascmhl.chain_xml_parser.write_chain"},
+    "ascmhl.commands.create_for_folder_subcommand": {"ascmhl.hashlist_xml_parser.write_hash_list", "ascmhl.chain_xml_parser.write_chain"},
+    "ascmhl.commands.create_for_single_files_subcommand": {"ascmhl.hashlist_xml_parser.write_hash_list", "ascmhl.chain_xml_parser.write_chain"},
+    "ascmhl.commands.flatten": set(WRITERS),
+    "ascmhl.commands.flatten_history": set(WRITERS),
+}
+LOADERS = {"load_from_path", "load_from_packing_list_path"}
+HISTORY_READERS = [
+    "ascmhl.commands.create_for_folder_subcommand",
+    "ascmhl.commands.create_for_single_files_subcommand",
+    "ascmhl.commands.verify_entire_folder",
+    "ascmhl.commands.verify_directory_hash_subcommand",
+    "ascmhl.commands.diff_entire_folder_against_full_history_subcommand",
+    "ascmhl.commands.flatten_history",
+    "ascmhl.commands.info_for_entire_history",
+    "ascmhl.commands.info_for_single_file",
+]
 
 
-def run(pid, tier):
-    return []
+def sha(fi):
+    return hashlib.sha256(fi.src.encode()).hexdigest()[:16]
+
+
+class Statics:
+    def __init__(self, repo_root=None):
+        self.repo = Repo(repo_root)
+        self.obs = []
+        self._callees = {}
+
+    def ob(self, pid, func, name, ok, why="", line=None, kind="frame", unknown=False, assumed=()):
+        fi = self.repo.funcs.get(func)
+        self.obs.append(
+            {
+                "name": f"{func}:{name}",
+                "kind": kind,
+                "props": [pid],
+                "verdict": "unknown" if unknown else ("discharged" if ok else "refuted"),
+                "backend": kind,
+                "time": 0.0,
+                "line": line,
+                "reason": None if ok and not unknown else why,
+                "trace": [],
+                "func": func,
+                "sha": sha(fi) if fi else None,
+                "model": None if ok else {"source_location": f"{fi.filename if fi else '?'}:{line}", "why": why},
+                "assumed": list(assumed),
+            }
+        )
+
+    # ---------------------------------------------------------------- call names
+    def dotted(self, node, mod):
+        """dotted library name of a call target such as os.path.join, resolved through the module's imports"""
+        parts = []
+        n = node
+        while isinstance(n, ast.Attribute):
+            parts.append(n.attr)
+            n = n.value
+        if not isinstance(n, ast.Name):
+            return None
+        parts.append(n.id)
+        parts.reverse()
+        r = self.repo.resolve_name(mod, parts[0])
+        if r is None:
+            return ".".join(parts)
+        if r[0] == "module" and r[1] not in self.repo.modules:
+            return ".".join([r[1]] + parts[1:])
+        if r[0] == "extern":
+            return ".".join([r[1], r[2]] + parts[1:])
+        return None
+
+    def primitives(self, fi):
+        """direct write primitives in a function: (kind, argsrc, line)"""
+        out = []
+        for n in ast.walk(fi.node):
+            if not isinstance(n, ast.Call):
+                continue
+            f = n.func
+            if isinstance(f, ast.Name) and f.id == "open" and self.repo.resolve_name(fi.module, "open") is None:
+                mode = None
+                if len(n.args) > 1:
+                    mode = n.args[1]
+                for kw in n.keywords:
+                    if kw.arg == "mode":
+                        mode = kw.value
+                if mode is None:
+                    continue  # default 'r'
+                if not (isinstance(mode, ast.Constant) and isinstance(mode.value, str)):
+                    out.append(("open:?", ast.unparse(n.args[0]) if n.args else "", n.lineno))
+                    continue
+                if any(c in mode.value for c in "wax+"):
+                    out.append((f"open:{mode.value}", ast.unparse(n.args[0]), n.lineno))
+                continue
+            if isinstance(f, ast.Name) and f.id in DYNAMIC and f.id not in ("getattr",):
+                out.append((f"dynamic:{f.id}", "", n.lineno))
+                continue
+            d = self.dotted(f, fi.module) if isinstance(f, (ast.Attribute, ast.Name)) else None
+            if d:
+                if d in WRITE_CALLS or d.startswith(WRITE_PREFIXES):
+                    out.append((d, ", ".join(ast.unparse(a) for a in n.args), n.lineno))
+                    continue
+            if isinstance(f, ast.Attribute) and f.attr in ("replace", "rename") and not (len(n.args) == 1 and not n.keywords):
+                continue  # str.replace(a, b) / datetime.replace(field=...) are not Path.replace(target)
+            if isinstance(f, ast.Attribute) and f.attr in WRITE_METHODS:
+                # method of an unknown receiver (pathlib-style): only if the receiver is not a repo object method
+                if not any(f.attr in ci.methods for ci in self.repo.classes.values()) and not any(
+                    f.attr in mi.funcs for mi in self.repo.modules.values()
+                ):
+                    out.append((f"method:{f.attr}", ast.unparse(f.value), n.lineno))
+        return out
+
+    def callees(self, fi):
+        """over-approximated set of repo functions a function may call (by name / by method name over all classes)"""
+        if fi.qualname in self._callees:
+            return self._callees[fi.qualname]
+        res = set()
+        for n in ast.walk(fi.node):
+            if not isinstance(n, ast.Call):
+                continue
+            f = n.func
+            if isinstance(f, ast.Name):
+                r = self.repo.resolve_name(fi.module, f.id)
+                if r and r[0] == "func":
+                    res.add(r[1].qualname)
+                elif r and r[0] == "class":
+                    init = self.repo.find_method(r[1].name, "__init__")
+                    if init:
+                        res.add(init.qualname)
+            elif isinstance(f, ast.Attribute):
+                # module function?
+                if isinstance(f.value, ast.Name):
+                    r = self.repo.resolve_name(fi.module, f.value.id)
+                    if r and r[0] == "module" and r[1] in self.repo.modules:
+                        rr = self.repo.resolve_name(r[1], f.attr)
+                        if rr and rr[0] == "func":
+                            res.add(rr[1].qualname)
+                            continue
+                        if rr and rr[0] == "class":
+                            init = self.repo.find_method(rr[1].name, "__init__")
+                            if init:
+                                res.add(init.qualname)
+                            continue
+                    if r and r[0] == "class":
+                        m = self.repo.find_method(r[1].name, f.attr)
+                        if m:
+                            res.add(m.qualname)
+                            continue
+                for ci in self.repo.classes.values():
+                    if f.attr in ci.methods:
+                        res.add(ci.methods[f.attr].qualname)
+        self._callees[fi.qualname] = res
+        return res
+
+    def reach(self, q):
+        seen = set()
+        stack = [q]
+        while stack:
+            x = stack.pop()
+            if x in seen or x not in self.repo.funcs:
+                continue
+            seen.add(x)
+            stack.extend(self.callees(self.repo.funcs[x]))
+        return seen
+
+    def assigns(self, fi, var):
+        """sources of all assignments to a simple name in the function"""
+        out = []
+        for n in ast.walk(fi.node):
+            if isinstance(n, ast.Assign):
+                for t in n.targets:
+                    if isinstance(t, ast.Name) and t.id == var:
+                        out.append((ast.unparse(n.value), n.lineno))
+            elif isinstance(n, ast.AugAssign) and isinstance(n.target, ast.Name) and n.target.id == var:
+                out.append(("augmented", n.lineno))
+        return out
+
+    # ---------------------------------------------------------------- C14
+    def c14(self):
+        pid = "C14"
+        shipped = set()
+        for q in COMMAND_FRAMES:
+            if q in self.repo.funcs:
+                shipped |= self.reach(q)
+            else:
+                self.ob(pid, q, "command-exists", False, "command function not found (renamed?)", unknown=True)
+        # (1) every write primitive of the package is declared
+        for q, fi in sorted(self.repo.funcs.items()):
+            prims = self.primitives(fi)
+            allowed = ALLOWED_PRIMITIVES.get(q, [])
+            if fi.module in EXCLUDED_MODULES:
+                allowed = None
+            if allowed is None:
+                self.ob(pid, q, "debug-helper-not-shipped", q not in shipped, "debug helper with its own frame became reachable from a shipped command")
+                continue
+            for kind, arg, line in prims:
+                ok = (kind, arg) in allowed
+                self.ob(
+                    pid, q, f"write-primitive-declared/{kind}({arg})@{line}", ok,
+                    f"write primitive {kind}({arg}) is not in the function's declared file-system frame {allowed}", line,
+                )
+            if not prims:
+                self.ob(pid, q, "fs_modifies=nothing", True)
+            for kind, arg in allowed:
+                if not any(k == kind and a == arg for k, a, _ in prims):
+                    # a declared effect that disappeared is harmless for C14 (fewer writes), nothing to prove
+                    pass
+        # (2) written paths are defined inside the frame
+        for q, defs in PATH_DEFS.items():
+            fi = self.repo.funcs.get(q)
+            if fi is None:
+                self.ob(pid, q, "exists", False, "function not found", unknown=True)
+                continue
+            for var, accepted in defs.items():
+                srcs = self.assigns(fi, var)
+                ok = len(srcs) >= 1 and all(s in accepted for s, _ in srcs)
+                self.ob(
+                    pid, q, f"path-definition/{var}", ok,
+                    f"{var} is assigned {[s for s, _ in srcs]}, frame needs one of {accepted}", srcs[0][1] if srcs else None,
+                )
+        # (3) command frames via the call graph
+        for q, frame in COMMAND_FRAMES.items():
+            if q not in self.repo.funcs:
+                continue
+            r = self.reach(q)
+            w = {x for x in r if self.primitives(self.repo.funcs[x]) and self.repo.funcs[x].module not in EXCLUDED_MODULES}
+            extra = sorted(w - frame)
+            self.ob(
+                pid, q, "command-frame", not extra,
+                f"functions with file-system writes reachable from this command but outside its declared frame {sorted(frame)}: {extra}",
+                self.repo.funcs[q].node.lineno, kind="callgraph",
+            )
+            dbg = sorted(x for x in r if x.startswith(("ascmhl._debug_commands", "ascmhl.chain_txt_parser")))
+            if q not in ("ascmhl.commands.create",):
+                self.ob(pid, q, "no-debug-code-reachable", not dbg, f"debug / legacy writers reachable: {dbg}", kind="callgraph")
+        # (4) the destination of flatten and the roots are passed through unmodified
+        self.param_flow(pid, "ascmhl.commands.flatten_history", "destination_path", [])
+        self.param_flow(pid, "ascmhl.commands.flatten", "destination_path", [])
+        for q in HISTORY_READERS + ["ascmhl.commands.flatten_history"]:
+            self.param_flow(pid, q, "root_path", ["os.path.join(os.getcwd(), root_path)"])
+        # (5) sessions that are never committed: verify -dh builds a session but must not reach commit
+        for q in ("ascmhl.commands.verify_directory_hash_subcommand", "ascmhl.commands.verify_entire_folder"):
+            if q in self.repo.funcs:
+                r = self.reach(q)
+                bad = sorted(x for x in r if x.endswith(".commit") or x.endswith("commit_session") or x.endswith("write_new_generation"))
+                self.ob(pid, q, "no-commit-reachable", not bad, f"commit path reachable from a read-only command: {bad}", kind="callgraph")
+
+    def param_flow(self, pid, q, param, accepted):
+        fi = self.repo.funcs.get(q)
+        if fi is None:
+            return
+        srcs = self.assigns(fi, param)
+        ok = all(s in accepted for s, _ in srcs)
+        self.ob(
+            pid, q, f"parameter-unmodified/{param}", ok,
+            f"{param} is re-assigned to {[s for s, _ in srcs]} (only {accepted} keeps the documented location)", srcs[0][1] if srcs else None,
+        )
+
+    # ---------------------------------------------------------------- C05
+    def c05(self):
+        pid = "C05"
+        for q in HISTORY_READERS:
+            fi = self.repo.funcs.get(q)
+            if fi is None:
+                self.ob(pid, q, "exists", False, "command body not found", unknown=True)
+                continue
+            # first statement position of a loader call and of any call that reaches a writer
+            load_line = None
+            in_try = False
+            for n in ast.walk(fi.node):
+                if isinstance(n, ast.Try):
+                    for m in ast.walk(n):
+                        if isinstance(m, ast.Call) and isinstance(m.func, ast.Attribute) and m.func.attr in LOADERS:
+                            in_try = True
+            top = fi.node.body
+            first_write = None
+            for idx, s in enumerate(top):
+                for n in ast.walk(s):
+                    if isinstance(n, ast.Call):
+                        if isinstance(n.func, ast.Attribute) and n.func.attr in LOADERS and load_line is None:
+                            load_line = (idx, n.lineno, isinstance(s, (ast.Assign, ast.Expr)), s)
+                        tgt = self.call_targets(n, fi)
+                        for t in tgt:
+                            if t in self.repo.funcs and any(
+                                self.primitives(self.repo.funcs[x]) for x in self.reach(t)
+                            ):
+                                if first_write is None:
+                                    first_write = (idx, n.lineno, t)
+            self.ob(pid, q, "loads-history", load_line is not None, "no call to MHLHistory.load_from_path in the command body", kind="dominance")
+            if load_line is None:
+                continue
+            self.ob(pid, q, "load-not-in-try", not in_try, "the history load is wrapped in try/except (its refusal could be swallowed)", load_line[1], kind="dominance")
+            # the load must be an unconditional top-level statement (or in an if/else whose both arms load)
+            s = load_line[3]
+            uncond = isinstance(s, (ast.Assign, ast.Expr)) or (
+                isinstance(s, ast.If) and all(
+                    any(isinstance(n, ast.Call) and isinstance(n.func, ast.Attribute) and n.func.attr in LOADERS for n in ast.walk(b_))
+                    for b_ in (ast.Module(body=s.body, type_ignores=[]), ast.Module(body=s.orelse, type_ignores=[]))
+                )
+            )
+            self.ob(pid, q, "load-unconditional", uncond, "the history load is conditional", load_line[1], kind="dominance")
+            if first_write is not None:
+                ok = load_line[0] < first_write[0] or (load_line[0] == first_write[0] and load_line[1] <= first_write[1])
+                self.ob(
+                    pid, q, "load-dominates-writes", ok,
+                    f"call to {first_write[2]} (line {first_write[1]}) can write before the history was loaded and verified (line {load_line[1]})",
+                    first_write[1], kind="dominance",
+                )
+            else:
+                self.ob(pid, q, "load-dominates-writes", True, kind="dominance")
+        # exceptions of the chain check carry the dedicated exit codes
+        for cls, code in (("ModifiedMHLManifestFileException", 31), ("NoMHLChainException", 32), ("MissingMHLManifestException", 33),
+                          ("NoMHLHistoryException", 30), ("CompletenessCheckFailedException", 10), ("VerificationFailedException", 11),
+                          ("VerificationDirectoriesFailedException", 12), ("SingleFileNotFoundException", 20), ("NewFilesFoundException", 21)):
+            ci = self.repo.classes.get(cls)
+            val = None
+            if ci is not None and "exit_code" in ci.attrs:
+                try:
+                    val = ast.literal_eval(ci.attrs["exit_code"])
+                except Exception:
+                    val = None
+            q = f"ascmhl.errors.{cls}"
+            self.obs.append({"name": f"{q}:exit_code=={code}", "kind": "ground", "props": ["C05", "C03"] if code in (31, 32, 33) else ["C03"],
+                             "verdict": "discharged" if val == code else "refuted", "backend": "ground", "time": 0.0, "line": ci.node.lineno if ci else None,
+                             "reason": None if val == code else f"exit_code is {val}", "trace": [], "func": None, "sha": None,
+                             "model": None if val == code else {"exit_code": val}, "assumed": ["click: a ClickException leaving a command becomes the process exit code `exit_code`"]})
+        # child histories are loaded through load_from_path, outside any try
+        q = "ascmhl.history.MHLHistory._find_and_load_child_histories"
+        fi = self.repo.funcs.get(q)
+        if fi is not None:
+            calls = [n for n in ast.walk(fi.node) if isinstance(n, ast.Call) and isinstance(n.func, ast.Attribute) and n.func.attr == "load_from_path"]
+            tries = [n for n in ast.walk(fi.node) if isinstance(n, ast.Try)]
+            self.ob(pid, q, "children-loaded-via-load_from_path", len(calls) >= 1 and not tries, "child histories are not (unconditionally) loaded through load_from_path", kind="dominance")
+        q = "ascmhl.history.MHLHistory.load_from_path"
+        fi = self.repo.funcs.get(q)
+        if fi is not None:
+            calls = [n for n in ast.walk(fi.node) if isinstance(n, ast.Call) and isinstance(n.func, ast.Attribute) and n.func.attr == "_find_and_load_child_histories"]
+            self.ob(pid, q, "loads-children", len(calls) == 1, "load_from_path does not load the child histories", kind="dominance")
+        # the chain writer copies the recorded digests of old generations and never re-reads old manifests:
+        # read frame of the loop over the loaded chain entries in write_chain
+        q = "ascmhl.chain_xml_parser.write_chain"
+        fi = self.repo.funcs.get(q)
+        if fi is None:
+            self.ob("C05", q, "exists", False, "chain writer not found", unknown=True)
+        else:
+            loops = [n for n in ast.walk(fi.node) if isinstance(n, ast.For) and ast.unparse(n.iter) == "chain.generations"]
+            if len(loops) != 1:
+                self.ob("C05", q, "old-entries-loop", False, "no single loop over chain.generations in write_chain", unknown=True)
+            else:
+                bad = []
+                for n in ast.walk(loops[0]):
+                    if isinstance(n, ast.Call):
+                        if isinstance(n.func, ast.Name) and n.func.id == "open":
+                            bad.append("open")
+                        for t in self.call_targets(n, fi):
+                            for x in self.reach(t):
+                                if x.endswith(("hash_file", "generate_reference_hash", "hash_data")) or x.endswith(".parse"):
+                                    bad.append(x)
+                self.ob("C05", q, "old-chain-entries-rendered-from-loaded-chain-only", not bad,
+                        f"the loop that re-writes existing chain entries reads files again ({sorted(set(bad))}): a manifest altered after "
+                        "loading would get a fresh digest and be accepted from then on", loops[0].lineno, kind="frame")
+                self.obs[-1]["props"] = ["C05", "C06"]
+        q = "ascmhl.chain_xml_parser._hashlist_xml_element_from_chaingeneration"
+        fi = self.repo.funcs.get(q)
+        if fi is not None:
+            r = self.reach(q)
+            bad = sorted(x for x in r if "hash_file" in x or "generate_reference_hash" in x or x.endswith(".parse"))
+            opens = [n for n in ast.walk(fi.node) if isinstance(n, ast.Call) and isinstance(n.func, ast.Name) and n.func.id == "open"]
+            self.ob("C05", q, "old-entries-copied-not-recomputed", not bad and not opens,
+                    f"the element for an existing chain entry is recomputed from disk ({bad}): a manifest altered after loading would be re-blessed", kind="frame")
+            self.obs[-1]["props"] = ["C05", "C06"]
+
+    def call_targets(self, n, fi):
+        out = set()
+        f = n.func
+        if isinstance(f, ast.Name):
+            r = self.repo.resolve_name(fi.module, f.id)
+            if r and r[0] == "func":
+                out.add(r[1].qualname)
+            elif r and r[0] == "class":
+                init = self.repo.find_method(r[1].name, "__init__")
+                if init:
+                    out.add(init.qualname)
+        elif isinstance(f, ast.Attribute):
+            for ci in self.repo.classes.values():
+                if f.attr in ci.methods:
+                    out.add(ci.methods[f.attr].qualname)
+            for mi in self.repo.modules.values():
+                if f.attr in mi.funcs and isinstance(f.value, ast.Name):
+                    r = self.repo.resolve_name(fi.module, f.value.id)
+                    if r and r[0] == "module" and r[1] == mi.name:
+                        out.add(mi.funcs[f.attr].qualname)
+        return out
+
+    # ---------------------------------------------------------------- C15
+    def c15(self):
+        pid = "C15"
+        for q, final in (("ascmhl.hashlist_xml_parser.write_hash_list", "file_path"), ("ascmhl.chain_xml_parser.write_chain", "chain.file_path")):
+            fi = self.repo.funcs.get(q)
+            if fi is None:
+                self.ob(pid, q, "exists", False, "writer not found", unknown=True, kind="crash")
+                continue
+            # effect trace of the (straight-line at top level) writer body
+            trace = []
+            for idx, s in enumerate(fi.node.body):
+                for n in ast.walk(s):
+                    if isinstance(n, ast.Call):
+                        f = n.func
+                        if isinstance(f, ast.Name) and f.id == "open":
+                            mode = n.args[1].value if len(n.args) > 1 and isinstance(n.args[1], ast.Constant) else None
+                            trace.append(("open", ast.unparse(n.args[0]), mode, idx, n.lineno, type(s).__name__))
+                        d = self.dotted(f, fi.module) if isinstance(f, ast.Attribute) else None
+                        if d in ("os.replace", "os.rename"):
+                            trace.append(("replace", ", ".join(ast.unparse(a) for a in n.args), None, idx, n.lineno, type(s).__name__))
+                        if isinstance(f, ast.Attribute) and f.attr in ("close", "flush") and isinstance(f.value, ast.Name):
+                            trace.append((f.attr, f.value.id, None, idx, n.lineno, type(s).__name__))
+                if isinstance(s, ast.With):
+                    trace.append(("with-exit", "", None, idx + 0.5, s.end_lineno, "With"))
+            opens = [t for t in trace if t[0] == "open" and t[2] and any(c in t[2] for c in "wax+")]
+            repl = [t for t in trace if t[0] == "replace"]
+            closes = [t for t in trace if t[0] == "close" or t[0] == "with-exit"]
+            # (a) exactly one write-open, onto the temporary name, truncating (an existing leftover must not block)
+            self.ob(pid, q, "single-write-open", len(opens) == 1, f"{len(opens)} files are opened for writing", opens[0][4] if opens else None, kind="crash")
+            if len(opens) != 1:
+                continue
+            o = opens[0]
+            self.ob(pid, q, "writes-temporary-name", o[1] == "temp_file_path",
+                    f"the writer opens {o[1]} for writing: a kill during writing leaves a partial file under a name the loader reads", o[4], kind="crash")
+            self.ob(pid, q, "temporary-opened-truncating", o[2] == "wb",
+                    f"open mode {o[2]!r}: only 'wb' both truncates a leftover of an earlier interrupted run and creates the file", o[4], kind="crash")
+            # (b) the loader ignores the temporary name: z3 over all strings
+            t0 = time.time()
+            p = z3.String("p")
+            s = z3.Solver()
+            s.set("timeout", 5000)
+            tmp = z3.Concat(p, z3.StringVal(".tmp"))
+            s.add(z3.Or(z3.SuffixOf(z3.StringVal(".mhl"), tmp), z3.SuffixOf(z3.StringVal("ascmhl_chain.xml"), tmp), z3.SuffixOf(z3.StringVal("ascmhl_collection.xml"), tmp)))
+            r = s.check()
+            defs = self.assigns(fi, "temp_file_path")
+            okdef = len(defs) == 1 and defs[0][0] == f"{final} + '.tmp'"
+            self.obs.append({"name": f"{q}:temporary-name-invisible-to-loader", "kind": "crash", "props": [pid],
+                             "verdict": "discharged" if (r == z3.unsat and okdef) else ("refuted" if okdef is False else "unknown"),
+                             "backend": "z3", "time": round(time.time() - t0, 3), "line": defs[0][1] if defs else None,
+                             "reason": None if (r == z3.unsat and okdef) else f"temp_file_path defined as {defs}", "trace": [], "func": q, "sha": sha(fi),
+                             "model": None if okdef else {"definition": defs}, "assumed": []})
+            # (c) the move into place is the last file-system effect and happens after the file is closed
+            self.ob(pid, q, "single-move-into-place", len(repl) == 1 and repl[0][1] == f"temp_file_path, {final}",
+                    f"moves into place: {[(t[1]) for t in repl]}", repl[0][4] if repl else None, kind="crash")
+            if len(repl) == 1:
+                rp = repl[0]
+                closed_before = any(c[3] < rp[3] or (c[3] == rp[3] and c[4] < rp[4] and c[0] == "close") for c in closes)
+                inside_with = any(isinstance(s_, ast.With) and any(n is not None and isinstance(n, ast.Call) and self.dotted(n.func, fi.module) in ("os.replace", "os.rename") for n in ast.walk(s_) if isinstance(n, ast.Call) and isinstance(n.func, ast.Attribute)) for s_ in fi.node.body)
+                self.ob(pid, q, "closed-before-move", closed_before and not inside_with,
+                        "the temporary file is moved onto the final name before it is closed (buffered data is lost if the process is killed in between)", rp[4], kind="crash")
+                later = [t for t in trace if t[3] > rp[3] and t[0] in ("open", "replace")]
+                self.ob(pid, q, "move-is-last-effect", not later, f"file-system effects after the move: {later}", rp[4], kind="crash")
+                in_finally = any(isinstance(n, ast.Try) and n.finalbody and any(isinstance(m, ast.Call) and isinstance(m.func, ast.Attribute) and self.dotted(m.func, fi.module) in ("os.replace", "os.rename") for fb in n.finalbody for m in ast.walk(fb)) for n in ast.walk(fi.node))
+                self.ob(pid, q, "move-only-on-success", not in_finally, "the move into place sits in a finally block: an aborted write would still publish the partial file", rp[4], kind="crash")
+        # commit: per history the manifest is written (and complete) before the chain refers to it; children first
+        q = "ascmhl.generator.MHLGenerationCreationSession.commit"
+        fi = self.repo.funcs.get(q)
+        if fi is not None:
+            order = []
+            for n in ast.walk(fi.node):
+                if isinstance(n, ast.Call) and isinstance(n.func, ast.Attribute) and n.func.attr in ("write_new_generation", "write_chain", "walk_child_histories"):
+                    order.append((n.lineno, n.func.attr))
+            order.sort()
+            names = [a for _, a in order]
+            self.ob(pid, q, "manifest-before-chain", names == ["walk_child_histories", "write_new_generation", "write_chain"],
+                    f"order of effects in commit is {names}", order[0][0] if order else None, kind="crash")
+            self.obs[-1]["props"] = ["C15", "C06", "C08"]
+        q = "ascmhl.history.MHLHistory.walk_child_histories"
+        fi = self.repo.funcs.get(q)
+        if fi is not None:
+            ys = [(n.lineno, type(n).__name__) for n in ast.walk(fi.node) if isinstance(n, (ast.Yield, ast.YieldFrom))]
+            ys.sort()
+            self.ob(pid, q, "children-before-parent", [k for _, k in ys] == ["YieldFrom", "Yield"], f"yield order {ys}", kind="crash")
+            self.obs[-1]["props"] = ["C15", "C08"]
+
+
+def run(pid, tier, repo_root=None):
+    from . import REPO
+
+    s = Statics(repo_root or REPO)
+    if pid == "C14":
+        s.c14()
+    elif pid == "C05":
+        s.c05()
+    elif pid == "C15":
+        s.c15()
+    elif pid in ("C06", "C08", "C03"):
+        s.c05()
+        s.c15()
+    return [o for o in s.obs if pid in o["props"]]
+
+
+if __name__ == "__main__":
+    import sys
+
+    for pid in sys.argv[1:] or ["C14", "C05", "C15"]:
+        obs = run(pid, "quick")
+        bad = [o for o in obs if o["verdict"] != "discharged"]
+        print(pid, len(obs), "obligations,", len(bad), "not discharged")
+        for o in bad:
+            print("  ", o["verdict"], o["name"], o["reason"])
